@@ -3,8 +3,10 @@ import json, os
 import core, gen, gen_units as G, canon, e2e
 from core import hx, unhx
 
-LEAN_MODULE = 'QM.Props.C06'
-THEOREMS = ['Parse.C06_print_parse', 'P.C06_quoteValue_no_newline', 'P.C06_quoteWords_no_newline', 'P.quoteArms_no_newline']
+LEAN_MODULE = 'QM.Props.C06Conv'
+THEOREMS = ['Parse.C06_print_parse', 'P.C06_quoteValue_no_newline', 'P.C06_quoteWords_no_newline', 'P.quoteArms_no_newline',
+            'Cv.C06_container_no_forged_lines', 'Cv.C06_pod_no_forged_lines', 'Cv.C06_kube_no_forged_lines', 'Cv.C06_volume_no_forged_lines',
+            'Cv.C06_network_no_forged_lines', 'Cv.C06_build_no_forged_lines', 'Cv.C06_loaded_unit_newline_free', 'Cv.C06_container_end_to_end', 'Parse.parse_noNL']
 ASSUMPTIONS = [
     'Parse.printUnit / Parse.parse model to_string / the reader; tied to the code by the parse and unit-script correspondences',
     'that every service produced by the converters is well-formed in the sense of WFSec (the hypothesis of C06_print_parse) is checked on real conversions (every entry of every generated service is compared after a real write and read-back), not yet proved over the converter models',
@@ -13,7 +15,10 @@ ASSUMPTIONS = [
 LEVEL_TEXT = ('Proof + end-to-end oracle: Lean theorem C06_print_parse — every well-formed unit (explicit decidable conditions on section names, keys '
               'and raw values) printed by the serialiser model parses back to exactly itself, entry by entry (induction over sections and entries); '
               'C06_quoteValue_no_newline / C06_quoteWords_no_newline — whatever text is stored through add/set or rendered as an Exec line contains no '
-              'newline, so it cannot start another line (proved over the escape tables extracted from the source). That the converters only produce '
+              'newline, so it cannot start another line (proved over the escape tables extracted from the source); C06_<type>_no_forged_lines — for '
+              'every converter model, if the unit is newline-free (which parse_noNL proves for everything the reader accepts: induction over the '
+              'character-level value state machine) then so is the generated service: no key and no raw value contains a newline, whatever the '
+              'values, paths and names are (NLfree calculus over add / set / prepend / add_raw / merge / rename). That the converters only produce '
               'well-formed units is checked on the real binary: every generated service file is read back by an independent line reader and by the '
               'repository parser and compared, entry by entry, with the unit the converter built.')
 LEVEL_NOTE = 'Trusted: Lean kernel; extractor; correspondence; e2e read-back on generated units for the converter invariant (KF-C06-1 excluded by its predicate).'
